@@ -155,6 +155,16 @@ CHECKS = {
             "the same object as both operands, mutation of returned objects) over twelve root-type pairs.",
             "Trusted: TLC, snapshots/fingerprints of harness/hist.py. Root objects from a small catalogue; histories sampled "
             "beyond depth 2.", "DESIGN.md section 3 C19"),
+    "C20": ("TLA+ generators (FAGen, PDAGen, FSTGen, CFGGen, EBNFGen) enumerated by TLC, machines built through the public "
+            "API over spelling pools; from_networkx(to_networkx()), CFG.from_text(to_text()) and RecursiveAutomaton."
+            "from_ebnf/from_regex replayed and judged by TraceRT: identity of the abstract machine, equal productions and "
+            "bounded language (CFGSem), one deterministic box per head accepting the union of the alternatives (RegexSem)",
+            "Spec-generated machines (epsilon transitions, several start states, parallel edges, multi-symbol pushes and "
+            "outputs) over four spelling pools (ints, '0', blanks, quotes, starting_0, non-ASCII, arrows and slashes inside "
+            "names are excluded by the domain guard only where the property excludes them); grammars with VAR:/TER: needs; "
+            "EBNF texts over the regex token syntax.",
+            "Trusted: TLC, projections. The textual assembling of labels is not modelled; spellings are a finite pool.",
+            "DESIGN.md section 3 C20"),
 }
 
 NOT_YET = "check not built yet in this round (see DESIGN.md section 9, build order); no claim is made"
